@@ -790,47 +790,48 @@ func (sql *SqliteDb) Revert(version int) error {
 		return err
 	}
 
-	hasShards, err := sql.isSharded()
+	q, err := sql.treeWrite.Prepare("SELECT name FROM sqlite_master WHERE type='table' AND name LIKE 'tree_%'")
 	if err != nil {
 		return err
 	}
-	if hasShards {
-		q, err := sql.treeWrite.Prepare("SELECT name FROM sqlite_master WHERE type='table' AND name LIKE 'tree_%'")
+	// a tree table created after the target version is dropped; an older one (the single table of an
+	// unsharded database in particular) loses the branch nodes written by the reverted versions
+	var drop, trim []string
+	for {
+		hasRow, err := q.Step()
 		if err != nil {
 			return err
 		}
-		var shards []string
-		for {
-			hasRow, err := q.Step()
-			if err != nil {
-				return err
-			}
-			if !hasRow {
-				break
-			}
-			var shard string
-			err = q.Scan(&shard)
-			if err != nil {
-				return err
-			}
-			shardVersion, err := strconv.Atoi(shard[5:])
-			if err != nil {
-				return err
-			}
-			if shardVersion > version {
-				shards = append(shards, shard)
-			}
+		if !hasRow {
+			break
 		}
-		if err = q.Close(); err != nil {
+		var shard string
+		err = q.Scan(&shard)
+		if err != nil {
 			return err
 		}
-		for _, shard := range shards {
-			if err = sql.treeWrite.Exec(fmt.Sprintf("DROP TABLE IF EXISTS %s", shard)); err != nil {
-				return err
-			}
+		shardVersion, err := strconv.Atoi(shard[5:])
+		if err != nil {
+			return err
 		}
-	} else {
-
+		if shardVersion > version {
+			drop = append(drop, shard)
+		} else {
+			trim = append(trim, shard)
+		}
+	}
+	if err = q.Close(); err != nil {
+		return err
+	}
+	for _, shard := range drop {
+		if err = sql.treeWrite.Exec(fmt.Sprintf("DROP TABLE IF EXISTS %s", shard)); err != nil {
+			return err
+		}
+	}
+	for _, shard := range trim {
+		if err = sql.treeWrite.Exec(fmt.Sprintf("DELETE FROM %s WHERE version > ?", shard), version); err != nil {
+			return err
+		}
 	}
 	return nil
 }
